@@ -74,6 +74,15 @@ def state_file(b, var, writes, extra_ctor_assign=None):
         cparts.append(b.function('Constructor', None, [], [], b.block([b.expr_stmt(b.bin('Assign', b.var('x'), rhs))])))
     for (member, pos, form, tkind) in writes:
         w = write_expr(b, form, tkind, 'x')
+        if pos == 'header_modifier_argument':
+            # the write sits in the HEADER of the member: argument of a modifier invocation / of a base constructor call; the body is empty
+            if member == 'constructor':
+                where, fn = 'c', b.function('Constructor', None, [], [b.fattr('modifier', 'Base', [w])], b.block([]))
+            else:
+                where, fn = 'c', b.function('Function', 'run', [b.param(b.ty('Uint', 256), None, 'v')],
+                                            [b.fattr('visibility', 'public'), b.fattr('modifier', 'atLeast', [w])], b.block([]))
+            cparts.append(fn)
+            continue
         stmts = fam.STMT_POSITIONS[pos](b, w)
         where, fn = member_with(b, member, stmts)
         (cparts if where == 'c' else fparts if where == 'f' else lparts).append(fn)
@@ -167,6 +176,11 @@ def all_cases(chk):
                     for ctor in ((None, 'value') if form in ('Assign', 'AssignAdd', 'PostIncrement') else (None,)):
                         out.append(('x %s on %s in %s @ %s, ctor=%s' % (form, tkind, member, pos, ctor),
                                     lambda b, a=(member, pos, form, tkind), c=ctor: state_file(b, VAR_KINDS[0], [a], c)))
+    # the only write sits in a function HEADER (modifier-invocation argument, base-constructor argument), with and without a constructor assignment
+    for form, member in itertools.product(('Assign', 'AssignAdd', 'PostIncrement'), ('public_function', 'constructor')):
+        for ctor in ((None, 'value', 'sum') if member != 'constructor' else (None,)):
+            out.append(('x %s in the header of %s (modifier / base argument), ctor=%s' % (form, member, ctor),
+                        lambda b, a=(member, 'header_modifier_argument', form, 'direct'), c=ctor: state_file(b, VAR_KINDS[0], [a], c)))
     # writes to other variable kinds (constant, immutable, mapping, string, user-defined)
     for var in VAR_KINDS[1:]:
         for form, member in itertools.product(('Assign', 'AssignAdd', 'PostIncrement'), ('constructor', 'public_function')):
@@ -212,7 +226,7 @@ def body(chk):
     n = len(all_cases(chk))
     idx = list(range(n))
     if chk.quick and n > 900:
-        core = [i for i, (l, _) in enumerate(all_cases(chk)) if l.startswith(('two params', 'two functions', 'constructor assigns')) or ('no write, ctor=' in l and l.startswith(('x:ui', 'x:ad', 'x:by', 'x:in')))]
+        core = [i for i, (l, _) in enumerate(all_cases(chk)) if l.startswith(('two params', 'two functions', 'constructor assigns')) or 'in the header of' in l or ('no write, ctor=' in l and l.startswith(('x:ui', 'x:ad', 'x:by', 'x:in')))]
         chk.rng.shuffle(idx)
         idx = sorted(set(idx[:900]) | set(core))
     chk.bounds = {'files': '%d of %d x 4 detectors' % (len(idx), n),
